@@ -236,7 +236,7 @@ def strat_case():
         spec = {'banner': banner, 'kex': list(kex) if moduli_mask % 3 == 0 else list(dict.fromkeys(kex)), 'key': list(keys) if moduli_mask % 5 == 0 else list(dict.fromkeys(keys)), 'hostkeys': {k: v for k, v in HOSTKEYS.items()},
                 'moduli': [s for i, s in enumerate(sizes) if moduli_mask >> i & 1], 'gex_style': style, 'rate': rate,
                 'faults': [[fw[i], fi[i], ff[i]] for i in range(nf)]}
-        opts = [[], ['-j'], ['-b'], ['-v'], ['-jj', '-b'], ['-j', '-b', '-v'], ['-l', 'fail'], ['-4']][moduli_mask % 8]
+        opts = [[], ['-j'], ['-b'], ['-v'], ['-jj', '-b'], ['-j', '-b', '-v'], ['-l', 'fail'], ['-4'], ['-t', '60'], ['-t', '16', '-j'], ['-t', '300'], ['-t', '1']][moduli_mask % 12]
         return {'spec': spec, 'skip_rate': skip, 'argv': opts + (['-P', 'Hardened OpenSSH Server v9.9 (version 1)'] if policy else []), 'addresses': naddr}
     return st.tuples(st.lists(st.sampled_from(kexes), min_size=1, max_size=5), st.lists(st.sampled_from(keytypes), min_size=1, max_size=8), st.integers(0, 511), st.sampled_from(['strict', 'roundup', 'openssh']),
                      st.sampled_from(RATES), st.sampled_from([False, False, True]), st.integers(0, 2), st.lists(st.sampled_from(WHATS), min_size=2, max_size=2), st.lists(st.sampled_from(FAULTS), min_size=2, max_size=2),
@@ -260,6 +260,7 @@ def run(ctx):
             for skip in (False, True):
                 grid.append({'spec': dict(base, kex=kexes, rate=rate), 'skip_rate': skip, 'argv': []})
                 grid.append({'spec': dict(base, kex=kexes, rate=rate), 'skip_rate': skip, 'argv': ['-j']})
+                grid.append({'spec': dict(base, kex=kexes, rate=rate), 'skip_rate': skip, 'argv': ['-t', ['60', '16', '600', '2'][len(grid) % 4]]})      # the footprint does not depend on the patience asked for
     # throttling servers: one banner every so many milliseconds, over the whole range in which the measured rate crosses the safe limit
     for ms in list(range(20, 400, 10 if ctx.quick else 2)) + [500, 800, 1200]:
         for kexes in (['diffie-hellman-group14-sha256'], ['diffie-hellman-group-exchange-sha256', 'curve25519-sha256']):
